@@ -59,7 +59,8 @@ class Lemma:
 class Canary:
     """An in-memory mutation that must be reported as a violation."""
 
-    def __init__(self, name, patch, space=None, max_paths=4000, lemma=None):
+    def __init__(self, name, patch, space=None, max_paths=1500, lemma=None, preset=None):
+        self.preset = preset
         self.name = name
         self.patch = patch        # context manager factory; raises StaleCanary if anchor is gone
         self.space = space        # name of the space it is run in (default: first)
@@ -214,8 +215,8 @@ def _jsonable(x, depth=0):
     return repr(x)
 
 
-def _explore_unit(space, fixed, max_depth=None, max_paths=None, stop_on_violation=False, scratch=None):
-    g = Engine(fixed=fixed)
+def _explore_unit(space, fixed, max_depth=None, max_paths=None, stop_on_violation=False, scratch=None, preset=None):
+    g = Engine(fixed=fixed, preset=preset)
     out = {"goals": collections.Counter(), "violations": [], "samples": [], "nontrivial": 0,
            "keys": set(), "inconclusive": [], "frontier": [], "exhausted": False}
     per_sig = collections.Counter()
@@ -275,7 +276,7 @@ def _work(unit):
                                            "by": [v[0] for v in r.get("violations", [])][:3], "wall_s": round(_perf() - t0, 2)})
                 space = _CTX["space_by_name"][can.space] if can.space else _CTX["all_spaces"][0]
                 with can.patch():
-                    r = _explore_unit(space, None, max_paths=can.max_paths, stop_on_violation=True)
+                    r = _explore_unit(space, None, max_paths=can.max_paths, stop_on_violation=True, preset=can.preset)
                 killed = bool(r["violations"])
                 # a canary that crashes the harness differently from a violation does not count
                 return ("canary", ci, {"name": can.name, "state": "killed" if killed else "NOT KILLED",
